@@ -46,6 +46,9 @@ def run(project, rep):
     from .. import rules_values as V
     rep.rule("W-R10", "what is read back is what was written: the reader's placement, decode tables and entity decoder (V-R1..V-R7; a decoder that decodes twice turns the written '&amp;amp;' into '&')")
     rep.run(V.v_rules, schema, rep)
+    from .. import rules_unknown as U
+    rep.run(U.u_r9_overrides_only_retag, schema, rep)
+    rep.run(T.t_r3, project, rep)
     rep.run(W.l_r3_datetime, project, rep)
     from .. import rules_dates as Z
     rep.rule("W-R9", "date-times survive as instants: writer offset notation inside the reader grammar (Z-R3), field-to-value plumbing (Z-R4), minutes take the sign of the hours (Z-R5)")
